@@ -272,6 +272,33 @@ let run_close toks =
     String.concat "" (Stdlib.List.map (function None -> "-" | Some true -> "1" | Some false -> "0") outs) ^ " " ^ flags
   | _ -> failwith "close args"
 
+(* ---- C13: NAND header and counter inference ------------------------------ *)
+let run_nandhdr toks =
+  match toks with
+  | [d] ->
+    (match Nand.nand_parse (bytes_of_hex d) with
+     | Err e -> "e:" ^ err_name e
+     | Ok h ->
+       let base_name b = match int_of_z b with 1 -> "twl" | 2 -> "ctr_old" | 3 -> "ctr_new" | 4 -> "firm" | 5 -> "agb" | _ -> "-" in
+       let slots = Stdlib.List.mapi (fun i s -> (i, s)) h.Nand.h_slots in
+       let show k (e : Nand.entry) = Printf.sprintf "%d,%d,%d,%s,%s,%s" k (int_of_z e.Nand.e_fs) (int_of_z e.Nand.e_crypt)
+           (hex_of_z e.Nand.e_off) (hex_of_z e.Nand.e_size) (base_name e.Nand.e_base) in
+       let direct = Stdlib.List.filter_map (fun (i, s) -> match s with Some e -> Some (i, show i e) | None -> None) slots in
+       let alias = Stdlib.List.filter_map (fun (a, i) ->
+         match Stdlib.List.nth h.Nand.h_slots (int_of_z i) with Some e -> Some (int_of_z a, show (int_of_z a) e) | None -> None) h.Nand.h_alias in
+       let all = Stdlib.List.sort compare (direct @ alias) in
+       String.concat " " (Stdlib.List.map snd all) ^ " | " ^ hex_of_bytes (Nand.nand_bytes h))
+  | _ -> failwith "nandhdr args"
+
+let run_nandinfer toks =
+  match toks with
+  | [mode; key; b0; b1; boff] ->
+    let k = bytes_of_hex ("h:" ^ key) in
+    let r = if mode = "ctr" then Nand.infer_ctr aes_enc aes_dec k (bytes_of_hex b0) (bytes_of_hex b1) (z_of_hex boff)
+            else Nand.infer_twl aes_enc aes_dec k (bytes_of_hex b0) (bytes_of_hex b1) (z_of_hex boff) in
+    (match r with Some c -> hex_of_z c | None -> "none")
+  | _ -> failwith "nandinfer args"
+
 let dispatch (line : string) : string =
   match String.split_on_char ' ' (String.trim line) with
   | "engine" :: toks -> run_engine toks
@@ -288,6 +315,8 @@ let dispatch (line : string) : string =
   | "ivfc" :: toks -> run_ivfc toks
   | "ivfcw" :: toks -> run_ivfcw toks
   | "close" :: toks -> run_close toks
+  | "nandhdr" :: toks -> run_nandhdr toks
+  | "nandinfer" :: toks -> run_nandinfer toks
   | e :: _ -> failwith ("unknown entry " ^ e)
   | [] -> ""
 
